@@ -176,6 +176,10 @@ impl MainState {
     }
 
     pub(crate) async fn remove_user(&self, conn_state: &ConnState) {
+        // only authenticated connection owns user under its nick.
+        if !conn_state.user_state.authenticated {
+            return;
+        }
         if let Some(ref nick) = conn_state.user_state.nick {
             let mut state = self.state.write().await;
             state.remove_user(nick);
